@@ -15,8 +15,8 @@ struct M
 #line 100
   MAKE_MOCK1(f, int(int));
 };
-static unsigned vf_log[8], vf_nlog;
-static void logit(unsigned i) { if (vf_nlog < 8) vf_log[vf_nlog] = i; ++vf_nlog; }
+static unsigned vf_logv, vf_nlog;           // side-effect log as base-8 digits (id+1), no symbolic array index
+static void logit(unsigned i) { vf_logv = vf_logv * 8 + (i + 1); ++vf_nlog; }
 
 using CM = vf_cm_t<int(int), decltype(trompeloeil::ge(0))>;
 
@@ -62,6 +62,10 @@ extern "C" void harness(void)
   for (int i = VF_N - 1; i >= 0; --i)
     if (!(VF_SAT & (1 << i)) && lo[i] <= x && x <= hi[i]) { handler = i; break; }
   bool accept = handler >= 0 && H[handler] != 0;
+#ifdef VF_CASE
+  // case split of the value space by designated candidate (the cases -1..VF_N-1 are exhaustive: handler is one of them)
+  verif_assume(handler == VF_CASE - 1);
+#endif
 
   bool threw = false; int r = -1;
   try { r = m.f(x); } catch (vf_reported &) { threw = true; }
@@ -70,14 +74,14 @@ extern "C" void harness(void)
   VCLAIM(1, threw == !accept, "C01.accept_iff_candidate");
   if (!accept)
   {
-    VCLAIM(1, vf_nreports == 1 && vf_reports[0].fatal, "C01.reject_exactly_one_fatal");
+    VCLAIM(1, vf_nreports == 1 && vf_first.fatal, "C01.reject_exactly_one_fatal");
     VCLAIM(1, vf_nlog == 0, "C01.reject_no_side_effect");
     for (int i = 0; i < VF_N; ++i)
       VCLAIM(1, cm[i]->sequences->get_calls() == c[i], "C01.reject_no_count_change");
     VCLAIM(16, vf_nok == 0, "C16.no_ok_report_for_rejected_call");
     if (handler >= 0)   // forbidden candidate: report carries that expectation's location (C07)
     {
-      VCLAIM(7, vf_reports[0].line == cm[handler]->loc.line && vf_reports[0].file == cm[handler]->loc.file, "C07.forbidden_report_location");
+      VCLAIM(7, vf_first.line == cm[handler]->loc.line && vf_first.file == cm[handler]->loc.file, "C07.forbidden_report_location");
       VCLAIM(7, cm[handler]->is_satisfied() && cm[handler]->is_saturated(), "C07.forbidden_flags");
       VCLAIM(7, cm[handler]->is_linked() && cm[handler]->sequences->is_forbidden(), "C07.forbidden_stays");
     }
@@ -87,7 +91,7 @@ extern "C" void harness(void)
     VCLAIM(1, vf_nreports == 0, "C01.accept_no_report");
     // C02/C08: only the newest match acts; its RETURN value comes back; its side effect ran once
     VCLAIM(2, r == 100 + handler, "C02.newest_match_returns");
-    VCLAIM(8, vf_nlog == 1 && vf_log[0] == (unsigned)handler, "C08.only_handler_side_effect_once");
+    VCLAIM(8, vf_nlog == 1 && vf_logv == (unsigned)handler + 1, "C08.only_handler_side_effect_once");
     for (int i = 0; i < VF_N; ++i)
       VCLAIM(2, cm[i]->sequences->get_calls() == (i == handler ? c[i] + 1 : c[i]), "C02.only_handler_counts");
     // C03: flags and list membership track the bounds
@@ -95,7 +99,7 @@ extern "C" void harness(void)
     VCLAIM(3, cm[handler]->is_saturated() == (c[handler] + 1 == H[handler]), "C03.is_saturated");
     // C16: exactly one OK report, carrying the handler's text
     VCLAIM(16, vf_nok == 1, "C16.exactly_one_ok_report");
-    VCLAIM(16, vf_ok_idx[0] == handler, "C16.ok_report_names_handler");
+    VCLAIM(16, vf_ok_last == handler, "C16.ok_report_names_handler");
   }
   // limits never change; list membership: saturated list holds exactly the pre-saturated ones plus a newly saturated handler
   for (int i = 0; i < VF_N; ++i)
